@@ -72,7 +72,15 @@ func (m *bipModel) consume(k int) {
 func TestC10_BipModel(t *testing.T) {
 	rec := evid.For("C10")
 	rec.SetRule("rapid state machine over BipBuffer sizes 1..64 (+ occasional up to 4096): Claim(n)/write tag bytes/Commit(m)/Consume(k)/Head/Reset with non-negative amounts, compared after every step with a FIFO-of-chunks model carrying physical offsets; non-trivial = the history had a wrapped region AND a claim outstanding across a Consume; distinct = hash of the operation trace")
-	vt.CheckSteps(t, 4000, 80, func(t *rapid.T) {
+	vt.CheckSteps(t, 4000, 80, propC10)
+}
+
+// FuzzC10BipBuffer drives the same state machine from coverage-guided bytes (thorough tier).
+func FuzzC10BipBuffer(f *testing.F) { f.Fuzz(rapid.MakeFuzz(propC10)) }
+
+func propC10(t *rapid.T) {
+	rec := evid.For("C10")
+	{
 		size := rapid.OneOf(rapid.IntRange(1, 16), rapid.IntRange(1, 64), rapid.IntRange(65, 4096)).Draw(t, "size")
 		buf := sonic.NewBipBuffer(size)
 		full := buf.Claim(size)
@@ -277,5 +285,5 @@ func TestC10_BipModel(t *testing.T) {
 		}
 		rec.Case(fmt.Sprintf("%d|%s", size, strings.Join(trace, ",")), sawWrapped && claimAcrossConsume, cls,
 			map[string]any{"size": size, "ops": trace})
-	})
+	}
 }
